@@ -640,6 +640,7 @@ def run(world, tier, prop):
     w.probe("probe_" + probe_kind)
     # the reference: the probe made first in a pristine process
     ref = run_reference(probe_kind, probe_seed, probe_placer)
+    w.fault("process_restart")
     if isinstance(ref, tuple) and ref and ref[0] == "died":
         raise RuntimeError("reference process failed: %r" % (ref,))
     ref_violated = isinstance(ref, tuple) and ref and \
